@@ -153,6 +153,19 @@ CLAIMED = {
         note='Trusted: rustc MIR, syn; the reasons in EVAL_PANICS / SUB_OK (rules/c01.py). Three known findings (combinatorics on usize) in known_findings.json.',
         technique='static analysis: registration-vs-closure table agreement on the syntax tree; dominating-guard recognition on MIR asserts; panic inventory; ADT shape audit',
         design='2/C01'),
+    'C02': dict(
+        level='other',
+        text='Table and ordering clauses decided for all instances: the bijection token <-> grammar rule <-> precedence-table entry <-> dispatch '
+             'arm <-> interned function name <-> book entry for the 17 binary and 3 unary operators and the index sugar, with tiers monotone '
+             'along the book\'s resolution order and ** right-associative; prefix-safety of every ordered choice of literal tokens; the '
+             'desugarings keep the receiver first and the rest in textual order; the evaluator evaluates operands once and forward; for each '
+             'of ~190 native closures, every argument is evaluated at most once per path and in index order, argument expressions are opaque, '
+             'and the set of natives that can return a value without evaluating a declared parameter (must-evaluate analysis over the closure '
+             'body) equals the documented short-circuit set in both directions. NOT decided: arithmetic results, precedence behaviour on all '
+             'expression shapes, output text.',
+        note='Trusted: pest_meta/syn parse; the book; pest PrecClimber semantics. Two known findings (assert re-evaluation, set_default) in known_findings.json.',
+        technique='static analysis: table agreement across grammar / syntax tree / book; per-path argument-evaluation order and must-evaluate analysis on native closures',
+        design='2/C02'),
 }
 
 NA_REASONS = {
